@@ -104,6 +104,10 @@ def gen_case(rng, it, tier):
     phi = phi / np.sum(np.abs(phi)) * tot
     if it % 13 == 0:
         phi[int(rng.integers(0, order))] = 0.0
+    if it % 17 == 5:
+        # a random walk / an alternating one: coefficient exactly +-1 at order 1
+        phi = np.array([[1.0, -1.0][(it // 17) % 2]])
+        order = 1
     lens = [0, 1, 2, 3, order, order + 1, 50, 500, 5000 if tier == "thorough" else 1200]
     n = lens[it % len(lens)] if it % 2 == 0 else int(rng.integers(0, 300))
     sc = 10.0 ** rng.integers(-3, 4)
